@@ -38,7 +38,7 @@ def main():
         'setup_cmd': 'true',
         'hooks': {
             'guard': 'PETL_VERIF',
-            'enable': 'none required: probes wrap sources/targets from outside; checks import petl from the /repo working tree',
+            'enable': 'no source hook: probes wrap sources/targets/connections from outside; for internal steps the checks install a logging handler on petl.transform.sorts (petl already logs its linearisation points at DEBUG level); petl is imported from the /repo working tree',
             'baseline_off_cmd': BASE,
             'source_commits': [],
             'add_only': True,
